@@ -250,12 +250,6 @@ Proof.
   rewrite rev_app_distr, is_prefix_app. reflexivity.
 Qed.
 
-Lemma frames_length bodies : (List.length bodies <= List.length (frames bodies))%nat.
-Proof.
-  induction bodies as [|b t IH]; [cbn; lia|]. rewrite frames_cons, app_length. unfold frame. rewrite app_length, be_length.
-  cbn [List.length]. lia.
-Qed.
-
 Lemma write_all_first it t :
   write_all_bodies c HASH w_init (it :: t) = header_body c :: write_all_bodies c HASH (st_of []) (it :: t).
 Proof.
